@@ -113,7 +113,8 @@ def drop_collinear(cyc):
 class World:
     """real objects bound to the registers of a specification behaviour"""
 
-    def __init__(self, st, real: Real, *, wlevel=1):
+    def __init__(self, st, real: Real, *, wlevel=1, probe=True):
+        self.probe = probe   # boundary probes (off for realisations below the library's absolute tolerances)
         self.st = st
         self.u = st.u
         self.real = real
@@ -348,7 +349,8 @@ class World:
             fails.append(Failure(tg["kind"], "kind mismatch", where=what, reg=reg, expected=sorted(st.kindset(reg)), got=k))
         if not deep:
             return fails
-        fails.extend(self.boundary_probe(obj, reg, word, what=what, tag=tg.get("boundary", tg["region"])))
+        if self.probe:
+            fails.extend(self.boundary_probe(obj, reg, word, what=what, tag=tg.get("boundary", tg["region"])))
         if not st.pinch(reg):
             cyc = self.vertex_cycles(obj, word)
             if len(cyc) != st.nloops(reg):
